@@ -1,0 +1,17 @@
+//go:build verif
+
+package qrcode
+
+// Re-exports of the unexported pure-barcode steps of QRCodeReader for the verification harness
+// (/verif, property C06, work package detrest).  Nothing here changes behaviour; the file is compiled
+// only with -tags verif.
+
+import "github.com/makiuchi-d/gozxing"
+
+func VerifExtractPureBits(image *gozxing.BitMatrix) (*gozxing.BitMatrix, error) {
+	return (&QRCodeReader{}).extractPureBits(image)
+}
+
+func VerifModuleSize(leftTopBlack []int, image *gozxing.BitMatrix) (float64, error) {
+	return (&QRCodeReader{}).moduleSize(leftTopBlack, image)
+}
